@@ -5,8 +5,8 @@ from math import gcd
 Y1980, Y2100, Y9999 = 315532800, 4102444800, 253402300800
 
 QUICK_RATES = [(200, 3), (1, 1), (10, 1), (100, 7), (1000, 1), (44100, 1), (48000, 1), (10**6, 1), (25 * 10**6, 1),
-               (10**6, 3), (10**8, 7), (30000, 1001), (2**32 - 1, 10**9),
-               (4294967291, 1), (3999999999, 1), (1234567891, 3)]   # last three: n >= 1e9, where sub-nanosecond remainders matter
+               (10**6, 3), (10**8, 7), (30000, 1001), (2**32 - 1, 10**9)]
+HIGH_RATES = [(4294967291, 1), (3999999999, 1), (1234567891, 3)]   # n >= 1e9, where sub-nanosecond remainders matter (layout twins)
 QUICK_CADENCES = [(2, 400), (3600, 1000), (1, 1), (1, 100)]   # (subdir_cadence_secs, file_cadence_millisecs)
 
 
